@@ -3,31 +3,280 @@
 package c08
 
 import (
+	"context"
 	"fmt"
+	"math/big"
+	"sort"
+	"strings"
 	"testing"
 
+	sdkmath "cosmossdk.io/math"
 	sdk "github.com/cosmos/cosmos-sdk/types"
+	stakingtypes "github.com/cosmos/cosmos-sdk/x/staking/types"
+	xchain "github.com/palomachain/paloma/v2/internal/x-chain"
+	keepertest "github.com/palomachain/paloma/v2/testutil/keeper"
+	"github.com/palomachain/paloma/v2/util/eventbus"
 	"github.com/palomachain/paloma/v2/verifharness/emit"
+	evmkeeper "github.com/palomachain/paloma/v2/x/evm/keeper"
+	evmtypes "github.com/palomachain/paloma/v2/x/evm/types"
+	metrixkeeper "github.com/palomachain/paloma/v2/x/metrix/keeper"
+	metrixtypes "github.com/palomachain/paloma/v2/x/metrix/types"
+	palomatypes "github.com/palomachain/paloma/v2/x/paloma/types"
+	valsetkeeper "github.com/palomachain/paloma/v2/x/valset/keeper"
+	valsettypes "github.com/palomachain/paloma/v2/x/valset/types"
 )
 
-type rankOp struct{}
-type worthyOp struct{}
-type purgeOp struct{}
-type jailOp struct{}
-type publishOp struct{}
+// ---- operation payloads ----
 
-type xworld struct {
-	t *testing.T
-	w *world
+// rank: rankValidators on a map built from Rows (address number, five raw LegacyDec strings)
+type rankOp struct {
+	Rows [][6]string `json:"rows"` // [addr number, fee, uptime, success, exec, feature]
+	W    [5]string   `json:"w"`
 }
 
-func newXWorld(t *testing.T, w *world) *xworld { return &xworld{t: t, w: w} }
+// worthy: isNewSnapshotWorthy on two one-validator snapshots that differ only in the external
+// chain infos (Traits false) or only in the traits of their single chain info (Traits true)
+type worthyOp struct {
+	Traits  bool  `json:"traits"`
+	Keys    []int `json:"keys"`    // current
+	Present []int `json:"present"` // new (same length)
+}
+
+// attest / purge: metrix keeper
+type purgeOp struct {
+	Attest    bool   `json:"attest"` // true: OnConsensusMessageAttested, false: PurgeRelayMetrics
+	Val       int    `json:"val"`
+	MessageID uint64 `json:"message_id"`
+	Success   bool   `json:"success"`
+}
+
+// jail: paloma keeper JailValidatorsWithMissingExternalChainInfos; Keys = chains the chain
+// supports, Vals[i] = chains validator i supports
+type jailOp struct {
+	Keys []int   `json:"keys"`
+	Vals [][]int `json:"vals"`
+}
+
+// publish: eventbus.Publish with subscribers registered in the given order
+type publishOp struct {
+	Subs []int `json:"subs"`
+}
+
+const nVals = 6
+
+func valAddr(i int) sdk.ValAddress {
+	b := make([]byte, 20)
+	b[0] = 0xA0
+	b[19] = byte(i)
+	return sdk.ValAddress(b)
+}
+
+// address strings used as map keys; their string order is the numbering the model uses
+func rankAddr(i int) string { return fmt.Sprintf("val%03d", i) }
+
+type xworld struct {
+	t    *testing.T
+	w    *world
+	mk   *metrixkeeper.Keeper
+	mctx sdk.Context
+	vk   *valsetkeeper.Keeper
+	vctx sdk.Context
+	fv   *fakeValset
+}
+
+func newXWorld(t *testing.T, w *world) *xworld {
+	x := &xworld{t: t, w: w}
+	x.mk, x.mctx = keepertest.MetrixKeeper(t)
+	x.mctx = x.mctx.WithBlockHeight(1000)
+	w.addStores("metrix", func() sdk.Context { return x.mctx })
+	x.vk, x.vctx = keepertest.ValsetKeeper(t)
+	w.addStores("valset", func() sdk.Context { return x.vctx })
+	x.fv = &fakeValset{}
+	w.pk.Valset = x.fv
+	return x
+}
+
+// ---- fakes for the paloma keeper's collaborators (the loop under test is the keeper's own) ----
+
+type fakeValset struct {
+	vals   []stakingtypes.ValidatorI
+	infos  map[string][]*valsettypes.ExternalChainInfo
+	jailed []string
+}
+
+func (f *fakeValset) GetUnjailedValidators(context.Context) []stakingtypes.ValidatorI { return f.vals }
+func (f *fakeValset) Jail(_ context.Context, v sdk.ValAddress, reason string) error {
+	f.jailed = append(f.jailed, fmt.Sprintf("%d:%s", v[19], reason))
+	return nil
+}
+func (f *fakeValset) GetValidatorChainInfos(_ context.Context, v sdk.ValAddress) ([]*valsettypes.ExternalChainInfo, error) {
+	return f.infos[string(v)], nil
+}
+
+type fakeChains struct{ ids []xchain.ReferenceID }
+
+func (f fakeChains) XChainType() xchain.Type                                { return "evm" }
+func (f fakeChains) XChainReferenceIDs(context.Context) []xchain.ReferenceID { return f.ids }
+
+func chainName(k int) string { return fmt.Sprintf("c%03d", k) }
+
+func decOf(s string) sdkmath.LegacyDec {
+	b, ok := new(big.Int).SetString(s, 10)
+	if !ok {
+		panic("bad decimal " + s)
+	}
+	return sdkmath.LegacyNewDecFromBigIntWithPrec(b, 18)
+}
+
+// repeat: how many times a map-consuming function is called on the same input inside one process
+// (every call iterates in its own random order); the answers must agree.
+const repeat = 4
 
 func (x *xworld) apply(op Op) (string, string) {
+	switch op.Kind {
+	case "rank":
+		return guarded(func() (string, string) {
+			var first string
+			for rep := 0; rep < repeat; rep++ {
+				infos := map[string]evmkeeper.ValidatorInfo{}
+				for _, r := range op.Rank.Rows {
+					infos["val"+r[0]] = evmkeeper.ValidatorInfo{Fee: decOf(r[1]), Uptime: decOf(r[2]), SuccessRate: decOf(r[3]), ExecutionTime: decOf(r[4]), FeatureSet: decOf(r[5])}
+				}
+				w := evmtypes.RelayWeightDec{Fee: decOf(op.Rank.W[0]), Uptime: decOf(op.Rank.W[1]), SuccessRate: decOf(op.Rank.W[2]), ExecutionTime: decOf(op.Rank.W[3]), FeatureSet: decOf(op.Rank.W[4])}
+				addrs, scores, err := evmkeeper.VerifC08Rank(x.w.pctx, infos, w)
+				if err != nil {
+					return errClass(err), ""
+				}
+				var sb strings.Builder
+				for i := range addrs {
+					fmt.Fprintf(&sb, "%s=%s;", strings.TrimPrefix(addrs[i], "val"), scores[i].BigInt().String())
+				}
+				if rep == 0 {
+					first = sb.String()
+				} else if sb.String() != first {
+					return "ok", "UNSTABLE " + first + " vs " + sb.String()
+				}
+			}
+			return "ok", first
+		})
+	case "worthy":
+		return guarded(func() (string, string) {
+			mk := func(keys []int) *valsettypes.Snapshot {
+				v := valsettypes.Validator{Address: valAddr(1), ShareCount: sdkmath.NewInt(100), State: valsettypes.ValidatorState_ACTIVE}
+				if op.Worthy.Traits {
+					ci := &valsettypes.ExternalChainInfo{ChainType: "evm", ChainReferenceID: "c", Address: "0x1"}
+					for _, k := range keys {
+						ci.Traits = append(ci.Traits, fmt.Sprintf("t%03d", k))
+					}
+					v.ExternalChainInfos = []*valsettypes.ExternalChainInfo{ci}
+				} else {
+					for _, k := range keys {
+						v.ExternalChainInfos = append(v.ExternalChainInfos, &valsettypes.ExternalChainInfo{ChainType: "evm", ChainReferenceID: chainName(k), Address: "0x1"})
+					}
+				}
+				return &valsettypes.Snapshot{Validators: []valsettypes.Validator{v}, TotalShares: sdkmath.NewInt(100)}
+			}
+			first := ""
+			for rep := 0; rep < repeat; rep++ {
+				got := fmt.Sprint(x.vk.VerifC08SnapshotWorthy(x.vctx, mk(op.Worthy.Keys), mk(op.Worthy.Present)))
+				if rep == 0 {
+					first = got
+				} else if got != first {
+					return "ok", "UNSTABLE"
+				}
+			}
+			return "ok", first
+		})
+	case "purge":
+		return guarded(func() (string, string) {
+			if op.Purge.Attest {
+				x.mk.OnConsensusMessageAttested(x.mctx, metrixtypes.MessageAttestedEvent{
+					AssignedAtBlockHeight: sdkmath.NewInt(10), HandledAtBlockHeight: sdkmath.NewInt(12),
+					Assignee: valAddr(op.Purge.Val), MessageID: op.Purge.MessageID, WasRelayedSuccessfully: op.Purge.Success,
+				})
+				return "ok", ""
+			}
+			before := x.history()
+			x.mk.PurgeRelayMetrics(x.mctx)
+			return "ok", before + "|" + x.history()
+		})
+	case "jail":
+		return guarded(func() (string, string) {
+			var ids []xchain.ReferenceID
+			for _, k := range op.Jail.Keys {
+				ids = append(ids, xchain.ReferenceID(chainName(k)))
+			}
+			x.w.pk.ExternalChains = []palomatypes.ExternalChainSupporterKeeper{fakeChains{ids}}
+			x.fv.vals, x.fv.infos, x.fv.jailed = nil, map[string][]*valsettypes.ExternalChainInfo{}, nil
+			for i, ks := range op.Jail.Vals {
+				va := valAddr(i)
+				oper, err := sdk.Bech32ifyAddressBytes("palomavaloper", va)
+				if err != nil {
+					panic(err)
+				}
+				x.fv.vals = append(x.fv.vals, stakingtypes.Validator{OperatorAddress: oper})
+				for _, k := range ks {
+					x.fv.infos[string(va)] = append(x.fv.infos[string(va)], &valsettypes.ExternalChainInfo{ChainType: "evm", ChainReferenceID: chainName(k)})
+				}
+			}
+			err := x.w.pk.JailValidatorsWithMissingExternalChainInfos(x.w.pctx)
+			return errClass(err), strings.Join(x.fv.jailed, "|")
+		})
+	case "publish":
+		return guarded(func() (string, string) {
+			var order []string
+			ev := eventbus.EVMActivatedChain()
+			for _, s := range op.Publish.Subs {
+				s := s
+				ev.Subscribe(fmt.Sprintf("sub%03d", s), func(context.Context, eventbus.EVMActivatedChainEvent) error {
+					order = append(order, fmt.Sprint(s))
+					return nil
+				})
+			}
+			ev.Publish(x.w.pctx, eventbus.EVMActivatedChainEvent{ChainReferenceID: "c"})
+			for _, s := range op.Publish.Subs {
+				ev.Unsubscribe(fmt.Sprintf("sub%03d", s))
+			}
+			return "ok", strings.Join(order, ",")
+		})
+	}
 	x.t.Fatalf("unknown operation kind %q", op.Kind)
 	return "", ""
 }
-func (x *xworld) extraReads(op Op) {}
+
+// history: the metrix history store projected to "val:count[first id]" per validator, in key order.
+func (x *xworld) history() string {
+	var parts []string
+	for i := 0; i < nVals; i++ {
+		h, err := x.mk.GetValidatorHistory(x.mctx, valAddr(i))
+		if err != nil || h == nil {
+			continue
+		}
+		parts = append(parts, fmt.Sprintf("%d:%d", i, len(h.Records)))
+	}
+	return strings.Join(parts, ",")
+}
+
+func (x *xworld) extraReads(op Op) {
+	// queries
+	_, _ = x.mk.GetMessageNonceCache(x.mctx)
+	for i := 0; i < nVals; i++ {
+		_, _ = x.mk.GetValidatorHistory(x.mctx, valAddr(i))
+	}
+	// the operation itself on discarded cache contexts (simulation / CheckTx)
+	func() {
+		defer func() { _ = recover() }()
+		sm, sv, sp := x.mctx, x.vctx, x.w.pctx
+		x.mctx, _ = sm.CacheContext()
+		x.vctx, _ = sv.CacheContext()
+		x.w.pctx, _ = sp.CacheContext()
+		defer func() { x.mctx, x.vctx, x.w.pctx = sm, sv, sp }()
+		switch op.Kind {
+		case "rank", "worthy", "purge", "jail":
+			x.apply(op)
+		}
+	}()
+}
 
 // ---- script generation ----
 
@@ -67,10 +316,106 @@ func genStatus(run *emit.Run) Op {
 	return op
 }
 
+var e18 = new(big.Int).Exp(big.NewInt(10), big.NewInt(18), nil)
+
+func genRank(run *emit.Run) Op {
+	r := run.Rng
+	n := 1 + r.Intn(7)
+	ro := &rankOp{}
+	small := func() string { // tie-rich: few distinct values
+		return new(big.Int).Mul(big.NewInt(int64(r.Intn(3))), new(big.Int).Div(e18, big.NewInt(2))).String()
+	}
+	wide := func() string {
+		return new(big.Int).Rand(r, new(big.Int).Mul(e18, big.NewInt(3))).String()
+	}
+	tie := r.Intn(3)
+	for _, id := range r.Perm(20)[:n] {
+		row := [6]string{fmt.Sprintf("%03d", id)}
+		for k := 1; k <= 5; k++ {
+			if r.Intn(3) < tie {
+				row[k] = small()
+			} else {
+				row[k] = wide()
+			}
+			if k == 4 { // execution time comes from a math.Int: whole numbers
+				row[k] = new(big.Int).Mul(big.NewInt(int64(r.Intn(4))), e18).String()
+			}
+		}
+		ro.Rows = append(ro.Rows, row)
+	}
+	for k := range ro.W {
+		if r.Intn(2) == 0 {
+			ro.W[k] = e18.String()
+		} else {
+			ro.W[k] = wide()
+		}
+	}
+	return Op{Kind: "rank", Rank: ro}
+}
+
+func genWorthy(run *emit.Run) Op {
+	r := run.Rng
+	n := 1 + r.Intn(6)
+	keys := r.Perm(12)[:n]
+	present := append([]int{}, keys...)
+	r.Shuffle(len(present), func(i, j int) { present[i], present[j] = present[j], present[i] })
+	if r.Intn(2) == 0 { // replace some keys by fresh ones: same length, some missing
+		for k := r.Intn(n) + 1; k > 0; k-- {
+			present[r.Intn(n)] = 12 + r.Intn(50)
+		}
+		seen := map[int]bool{}
+		for i := range present {
+			for seen[present[i]] {
+				present[i] = 100 + r.Intn(900)
+			}
+			seen[present[i]] = true
+		}
+	}
+	return Op{Kind: "worthy", Worthy: &worthyOp{Traits: r.Intn(2) == 0, Keys: keys, Present: present}}
+}
+
+func genJail(run *emit.Run) Op {
+	r := run.Rng
+	jo := &jailOp{Keys: r.Perm(10)[:1+r.Intn(6)]}
+	for v := 0; v < 1+r.Intn(4); v++ {
+		var ks []int
+		for _, k := range r.Perm(10) {
+			if r.Intn(2) == 0 {
+				ks = append(ks, k)
+			}
+		}
+		if r.Intn(3) == 0 {
+			ks = append([]int{}, jo.Keys...)
+		}
+		jo.Vals = append(jo.Vals, ks)
+	}
+	return Op{Kind: "jail", Jail: jo}
+}
+
+// genScript: status updates interleaved with the map-consuming functions; message ids of the
+// metrix events grow so that purges have something to purge (scoring window = 1000 ids).
 func genScript(run *emit.Run, n int) []Op {
+	r := run.Rng
 	var s []Op
+	msgID := uint64(1 + r.Intn(50))
 	for i := 0; i < n; i++ {
-		s = append(s, genStatus(run))
+		switch k := r.Intn(20); {
+		case k < 6:
+			s = append(s, genStatus(run))
+		case k < 9:
+			s = append(s, genRank(run))
+		case k < 11:
+			s = append(s, genWorthy(run))
+		case k < 13:
+			s = append(s, genJail(run))
+		case k < 14:
+			s = append(s, Op{Kind: "publish", Publish: &publishOp{Subs: r.Perm(9)[:1+r.Intn(6)]}})
+		case k < 18:
+			msgID += uint64(1 + r.Intn(400))
+			s = append(s, Op{Kind: "purge", Purge: &purgeOp{Attest: true, Val: r.Intn(nVals), MessageID: msgID, Success: r.Intn(3) > 0}})
+		default:
+			s = append(s, Op{Kind: "purge", Purge: &purgeOp{}})
+		}
 	}
 	return s
 }
@@ -83,6 +428,9 @@ func corpusScripts() [][]Op {
 		// F5b: malformed creator — error with the variable, success without (pinned tree)
 		{{Kind: "status", Creator: "paloma1notbech32", CreatorOK: creatorOK("paloma1notbech32"), Level: 1, Status: "s"}},
 		{{Kind: "status", Creator: goodCreator(2), CreatorOK: true, Level: 1, Status: "s", Args: []string{"a", "b"}}},
+		// all-equal scores: the ranking is decided by the address tie-break alone
+		{{Kind: "rank", Rank: &rankOp{Rows: [][6]string{{"007", "5", "5", "5", "0", "5"}, {"003", "5", "5", "5", "0", "5"}, {"011", "5", "5", "5", "0", "5"}, {"001", "5", "5", "5", "0", "5"}},
+			W: [5]string{e18.String(), e18.String(), e18.String(), e18.String(), e18.String()}}}},
 	}
 }
 
@@ -98,6 +446,14 @@ func resultCode(res string) int64 {
 		return 3
 	}
 	return 9
+}
+
+func intsCoq(xs []int) string {
+	s := make([]string, len(xs))
+	for i, x := range xs {
+		s[i] = emit.ZI(int64(x))
+	}
+	return emit.List(s)
 }
 
 // emitCases: one Coq case per (operation, environment): the model, given that environment, must
@@ -120,16 +476,170 @@ func emitCases(run *emit.Run, script []Op, outs [][]stepOut, envs []twinEnv) {
 	for i, op := range script {
 		for k, e := range envs {
 			o := outs[k][i]
+			run.Count("ops", op.id())
+			if strings.HasPrefix(o.Obs, "UNSTABLE") {
+				run.Violate("C08:unstable-within-process:"+op.id(), fmt.Sprintf("operation %s gives different answers on the same input inside one process: %s", op.id(), o.Obs),
+					map[string]any{"history": []Op{op}, "env": e, "output": o})
+			}
 			switch op.Kind {
 			case "status":
 				run.Count("status", fmt.Sprintf("%s flag=%v -> %s", op.id(), e.FlagSet, o.Result))
 				run.Case(fmt.Sprintf("C08.CStatus %s %s %s %s", emit.Bool(e.FlagSet), emit.Bool(op.CreatorOK), emit.ZI(int64(op.Level)), emit.ZI(resultCode(o.Result))),
 					nontrivial, map[string]any{"op": op, "env": e, "result": o.Result})
-			default:
-				emitXCase(run, op, o, e, nontrivial)
+			case "rank":
+				if k != 0 || o.Result != "ok" { // the streams are equal (oracle); one case per operation
+					continue
+				}
+				var rows, got []string
+				for _, r := range op.Rank.Rows {
+					id, _ := new(big.Int).SetString(r[0], 10)
+					rows = append(rows, emit.Pair(emit.Z(id), r[1], r[2], r[3], r[4], r[5]))
+				}
+				for _, p := range strings.Split(strings.TrimSuffix(o.Obs, ";"), ";") {
+					kv := strings.SplitN(p, "=", 2)
+					id, _ := new(big.Int).SetString(kv[0], 10)
+					sc, _ := new(big.Int).SetString(kv[1], 10)
+					got = append(got, emit.Pair(emit.Z(id), emit.Z(sc)))
+				}
+				run.Count("rank-size", fmt.Sprint(len(rows)))
+				run.Case(fmt.Sprintf("C08.CRank %s %s %s", emit.List(rows), emit.Pair(op.Rank.W[0], op.Rank.W[1], op.Rank.W[2], op.Rank.W[3], op.Rank.W[4]), emit.List(got)), nontrivial, nil)
+			case "worthy":
+				if k != 0 {
+					continue
+				}
+				run.Count("worthy", o.Obs)
+				run.Case(fmt.Sprintf("C08.CAnyMissing %s %s %s", intsCoq(op.Worthy.Keys), intsCoq(op.Worthy.Present), o.Obs), nontrivial, nil)
+			case "jail":
+				if k != 0 {
+					continue
+				}
+				// one case per validator: the chains named in its jail reason, in the order of the reason
+				reasons := map[int]string{}
+				if o.Obs != "" {
+					for _, j := range strings.Split(o.Obs, "|") {
+						kv := strings.SplitN(j, ":", 2)
+						var vi int
+						fmt.Sscan(kv[0], &vi)
+						reasons[vi] = kv[1]
+					}
+				}
+				for vi, ks := range op.Jail.Vals {
+					var got []int
+					if rs, ok := reasons[vi]; ok {
+						rs = strings.TrimPrefix(rs, "not supporting these external chains: ")
+						for _, p := range strings.Split(rs, "], [") {
+							p = strings.Trim(p, "[]")
+							var c int
+							fmt.Sscanf(strings.TrimPrefix(p, "evm, c"), "%d", &c)
+							got = append(got, c)
+						}
+					}
+					run.Count("jail-missing", fmt.Sprint(len(got)))
+					run.Case(fmt.Sprintf("C08.CSortedMissing %s %s %s", intsCoq(op.Jail.Keys), intsCoq(ks), intsCoq(got)), nontrivial, nil)
+				}
+			case "purge":
+				if k != 0 || op.Purge.Attest {
+					continue
+				}
+				emitPurgeCase(run, script[:i], o, nontrivial)
+			case "publish":
+				if k != 0 {
+					continue
+				}
+				// handlers must have run in subscriber-id order
+				want := append([]int{}, op.Publish.Subs...)
+				sort.Ints(want)
+				var ws []string
+				for _, x := range want {
+					ws = append(ws, fmt.Sprint(x))
+				}
+				if o.Obs != strings.Join(ws, ",") {
+					run.Violate("C08:publish-order", "eventbus.Publish did not call the handlers in sorted subscriber order: "+o.Obs, map[string]any{"history": []Op{op}})
+				}
 			}
 		}
 	}
 }
 
-func emitXCase(run *emit.Run, op Op, o stepOut, e twinEnv, nontrivial bool) {}
+// emitPurgeCase: store before / after as the child observed them; the updates are recomputed here
+// from the history so far (which records of which validator fall below the threshold).
+func emitPurgeCase(run *emit.Run, prefix []Op, o stepOut, nontrivial bool) {
+	parse := func(s string) map[int]int {
+		m := map[int]int{}
+		if s == "" {
+			return m
+		}
+		for _, p := range strings.Split(s, ",") {
+			var v, c int
+			fmt.Sscanf(p, "%d:%d", &v, &c)
+			m[v] = c
+		}
+		return m
+	}
+	ba := strings.SplitN(o.Obs, "|", 2)
+	if len(ba) != 2 {
+		return
+	}
+	before, after := parse(ba[0]), parse(ba[1])
+	// replay the attest events: per validator the message ids recorded since its last purge
+	ids := map[int][]uint64{}
+	var last uint64
+	for _, p := range prefix {
+		if p.Kind != "purge" {
+			continue
+		}
+		if p.Purge.Attest {
+			l := ids[p.Purge.Val]
+			if len(l) >= 100 {
+				l = l[1:]
+			}
+			ids[p.Purge.Val] = append(l, p.Purge.MessageID)
+			last = p.Purge.MessageID
+		} else if last > 1000 {
+			for v, l := range ids {
+				var keep []uint64
+				for i, id := range l {
+					if id >= last-1000 {
+						keep = l[i:]
+						break
+					}
+				}
+				ids[v] = keep
+			}
+		}
+	}
+	var ups [][2]int
+	if last > 1000 {
+		for v, l := range ids {
+			kept := 0
+			for i, id := range l {
+				if id >= last-1000 {
+					kept = len(l) - i
+					break
+				}
+			}
+			if kept != len(l) || len(l) == 0 {
+				ups = append(ups, [2]int{v, kept})
+			}
+		}
+	}
+	// the order in which the updates are listed is arbitrary (a Go map here too): the model must not care
+	coq := func(m map[int]int) string {
+		var ks []int
+		for k := range m {
+			ks = append(ks, k)
+		}
+		sort.Ints(ks)
+		var s []string
+		for _, k := range ks {
+			s = append(s, emit.Pair(emit.ZI(int64(k)), emit.ZI(int64(m[k]))))
+		}
+		return emit.List(s)
+	}
+	var us []string
+	for _, u := range ups {
+		us = append(us, emit.Pair(emit.ZI(int64(u[0])), emit.ZI(int64(u[1]))))
+	}
+	run.Count("purge-updates", fmt.Sprint(len(ups)))
+	run.Case(fmt.Sprintf("C08.CPurge %s %s %s", coq(before), emit.List(us), coq(after)), nontrivial, nil)
+}
